@@ -780,6 +780,12 @@ inline to_number_result<wchar_t> decstr_to_double(const wchar_t* s, std::size_t 
     {
         return to_number_result<wchar_t>{s+(res.ptr-buf.data()),std::errc::invalid_argument};
     }
+    if (res.ec == std::errc::result_out_of_range)
+    {
+        // from_chars leaves val untouched: give the infinity the char overload gives
+        bool negative = (length > 0 && buf[0] == '-') ? true : false;
+        val = negative ? -HUGE_VAL : HUGE_VAL;
+    }
     return to_number_result<wchar_t>{s+length,res.ec};
 }
 
